@@ -1,7 +1,7 @@
 (* Props/C01.v — Formula operators keep their Excel meaning.  Statements only. *)
 Require Import X2P.Base.Prelude X2P.Base.F64 X2P.Base.PyCmp X2P.Base.PyNum X2P.Base.PyArith.
 Require Import X2P.Model.Peg X2P.Model.Emit X2P.Gen.Grammar X2P.Spec.Formula X2P.Spec.Shape X2P.Corr.C01.
-Require Import X2P.Proofs.FormulaSweep X2P.Proofs.FormulaSweep7 X2P.Proofs.FormulaProofs X2P.Proofs.FormulaRefute X2P.Proofs.FormulaCore.
+Require Import X2P.Proofs.FormulaSweep X2P.Proofs.FormulaSweep7 X2P.Proofs.FormulaProofs X2P.Proofs.FormulaRefute X2P.Proofs.FormulaCore X2P.Proofs.FormulaGrammar.
 Open Scope string_scope.
 
 (* the precedence / associativity table, kernel-exhaustive: for EVERY sequence of 1..7 tokens over {atom + - * / & < % ( )} that Excel
@@ -39,6 +39,20 @@ Theorem C01_core_inhabited :
       | _ => false end
   | _ => false end = true.
 Proof. exact core_example. Qed.
+
+(* UNBOUNDED GROUPING THEOREM: for every core tree — any size, any nesting depth — Python's reading of the emitted text (regroup, on the
+   structured text with nested bracket groups) builds exactly the tree that the standard precedence grammar G (unary sign > * / > + -,
+   left-associative, brackets; Proofs/FormulaGrammar.v) builds on the formula's own token string.  Proof: core_emit_identity plus a
+   simulation between the two readers for every fuel. *)
+Theorem C01_core_grouping : forall fuel fc t c pe,
+  core fc t = true -> emit fuel t = EOk c -> regroup c = Some pe ->
+  exists F g, g_sum F (map view_tok (yield t)) = Some (g, []) /\ py_of_gt g = pe.
+Proof. exact core_grouping. Qed.
+(* that G is Excel's reading (the independent reader xparse of Spec/Formula.v) on such strings: kernel-exhaustive for all strings of
+   length <= 7 over {atom + - * / ( )} — a fact about the two grammars only, independent of the translator *)
+Theorem C01_grammars_agree_le7 : forall ids,
+  (1 <= List.length ids <= 7)%nat -> Forall (fun a => In a CORE_ALPHA) ids -> grammars_agree ids = true.
+Proof. exact grammars_agree_all. Qed.
 
 (* a blank operand counts as 0: it behaves exactly as the integer 0 under + - * / and the unary signs, on either side, against EVERY value *)
 Theorem C01_blank_is_zero : forall o y,
